@@ -73,6 +73,7 @@ pub struct Scripted {
     cancel_own: Option<usize>,
     private: (rustradio::stream::WriteStream<u8>, rustradio::stream::ReadStream<u8>),
     private2: (rustradio::stream::WriteStream<u8>, rustradio::stream::ReadStream<u8>),
+    private_nc: (rustradio::stream::NCWriteStream<Vec<u8>>, rustradio::stream::NCReadStream<Vec<u8>>),
 }
 
 impl BlockName for Scripted {
@@ -110,10 +111,13 @@ impl Block for Scripted {
         if c.moved {
             // stream activity of one kind only, on streams that are neither empty nor full before
             // and after: a commit into a non-empty stream, or a consume that leaves samples behind
-            if self.pos % 2 == 0 {
+            if self.pos % 3 == 0 {
                 let mut wb = self.private.0.write_buf()?;
                 wb.slice()[0] = 1;
                 wb.produce(1, &[]);
+            } else if self.pos % 3 == 2 {
+                // a packet pushed on a no-copy stream is stream activity too
+                self.private_nc.0.push(vec![self.pos as u8], &[]);
             } else {
                 let (rb, _) = self.private2.1.read_buf()?;
                 rb.consume(1);
@@ -210,6 +214,7 @@ fn build(scripts: &[Vec<Call>], forever: &[bool], token: &CancellationToken, can
                 }
                 p
             },
+            private_nc: rustradio::stream::new_nocopy_stream::<Vec<u8>>(),
             private2: {
                 // pre-filled: consume-only moves never drain it
                 rustradio::verif::set_stream_size(4096);
